@@ -201,11 +201,29 @@ class Ctx:
         return single_atom_token(self.rng.choice(atoms), desc)
 
     def plain(self, heavy=True):
-        pool = self.pool1
+        """prefix / connector / suffix written without descriptors: the library inserts them in front of the
+        first and behind the last written atom, so both must have room"""
+        pool = [s for s in self.pool1 if _ends_free(s)]
         return plain_token(self.rng.choice(pool))
 
     def weight(self):
         return self.rng.choice([None, None, 2.0, 0.5, 3.0, 0.25, 10.0, 1.0])
+
+
+def _ends_free(smi):
+    n, caps, _ = fragment_info(smi)
+    last = _last_chain_atom(smi)
+    if n == 1:
+        return caps[0] >= 2
+    return caps[0] >= 1 and caps[last] >= 1
+
+
+@lru_cache(maxsize=None)
+def _last_chain_atom(smi):
+    """index of the atom a descriptor appended to the text would bond to"""
+    from .ref.token import read_token
+
+    return read_token(parse_fragment(smi).to_text() + "[$]").desc_atom[0]  # the text as the printer writes it
 
 
 def unit_mass(tok):
